@@ -5,6 +5,7 @@
 From Coq Require Import List ZArith NArith Bool Arith.
 Import ListNotations.
 From RV Require Import Lib.Str Model.DataFile Proofs.DataFileP.
+From RV Require Import Gen.GenFacts.
 
 (** Every line that is not a measurement (comments, metadata block lines, records, the header, a
     line that cannot be read, an incomplete last line) is kept, in order. *)
@@ -39,6 +40,13 @@ Print Assumptions C14_atomic.
 Theorem C14_completes : forall old new, data_f (crash_after old new 4) = new.
 Proof. exact rewrite_completes. Qed.
 Print Assumptions C14_completes.
+
+(** Read off load_data on every run: the filtered copy is created in the data file's own directory (so the
+    temporary directory's file system is irrelevant), it is installed with os.replace after it was closed, and the
+    data file itself is never unlinked or moved - the step list above is what the code does. *)
+Theorem C14_replace_structure : replace_atomic = true.
+Proof. reflexivity. Qed.
+Print Assumptions C14_replace_structure.
 
 (** Non-vacuity: two runs in a file, one selected. *)
 Example C14_example :
